@@ -31,6 +31,15 @@ class P(ServeProp):
                 body = rnd.choice([b"abc", b"", b"\xff\xfe", b"x\r\n", b"--" + bd.encode(), bytes(rnd.randrange(256) for _ in range(rnd.randint(0, 30)))])
                 hs = (b"Content-Disposition: " + cd.encode() + b"\r\n") if rnd.random() < 0.9 else b""
                 parts.append(hs + b"\r\n" + body)
+            if rnd.random() < 0.6 and bd.strip("-"):
+                # the standard shape: delimiter lines are "--" + boundary, the last one is followed by "--"
+                wf = []
+                for _ in range(rnd.randint(1, 4)):
+                    cd = rnd.choice(['form-data; name="f"', 'form-data; name="g"; filename="x.bin"', 'form-data; name="h"', 'form-data; name=""', "form-data"])
+                    pb = rnd.choice([b"abc", b"", b"\xff\xfe\x80binary", b"line1\r\nline2", "é😀".encode(), bytes(rnd.randrange(256) for _ in range(rnd.randint(0, 30)))])
+                    wf.append(b"--" + bd.encode() + b"\r\nContent-Disposition: " + cd.encode() + b"\r\n" + rnd.choice([b"", b"Content-Type: application/octet-stream\r\n"]) + b"\r\n" + pb + b"\r\n")
+                body = b"".join(wf) + b"--" + bd.encode() + b"--\r\n"
+                return "POST", t, ["Content-Type: multipart/form-data; boundary=" + bd, "Content-Length: %d" % len(body)], body
             body = bd.encode() + b"".join(b"\r\n" + p + b"\r\n" + bd.encode() for p in parts)
             hs = ["Content-Type: multipart/form-data; boundary=" + bd]
             return "POST", t, hs, body
